@@ -88,7 +88,18 @@ def case_strategy():
             c["tree"][host]["items"] = [["chain", [["ifdef", "FORCED_ON", [["code", 1]]]], [["code", 2]]]] + c["tree"][host]["items"]
             pn = draw(st.sampled_from(sorted(c["platforms"])))
             c["platforms"][pn].append({"file": host, "defines": [], "dirs": [], "forced": [fh], "compiler": "gcc"})
+        # a compiled file that can be excluded and whose includes all sit inside conditional groups: it must
+        # still be preprocessed, or the code-base headers it includes lose their platform
+        cond_only = srcs and draw(st.integers(0, 2)) == 0
+        if cond_only:
+            for h in ("condinc/a.h", "condinc/b.h"):
+                c["tree"][h] = {"items": [["code", 2]], "style": [0]}
+            c["tree"]["gen/cond_only.c"] = {"items": [["chain", [["ifdef", "A", [["include", "quote", "../condinc/a.h"]]]], [["include", "quote", "../condinc/b.h"]]], ["code", 1]], "style": [0]}
+            pn = draw(st.sampled_from(sorted(c["platforms"])))
+            c["platforms"][pn].append({"file": "gen/cond_only.c", "defines": draw(st.sampled_from([[], ["A=1"]])), "dirs": [], "forced": []})
         c["excludes"] = draw(patterns_for(list(c["tree"]) + list(c.get("extra", {}))))
+        if cond_only and draw(st.booleans()):
+            c["excludes"] = (c["excludes"] + [draw(st.sampled_from(["gen/", "gen/cond_only.c", "cond_only.c"]))])[-3:]
         return c
 
     return case()
